@@ -999,6 +999,11 @@ class TorConfig:
         else:
             for (k, v) in saved.items():
                 if k in self.unsaved and self.unsaved[k] == v:
+                    if isinstance(v, list):
+                        # what was saved is what we report from now on
+                        # (the list save() stored may have been
+                        # edited and then replaced meanwhile)
+                        self.config[self._find_real_name(k)] = self.unsaved[k]
                     del self.unsaved[k]
         return self
 
